@@ -644,7 +644,11 @@ def rule_model_jac(F, ev, R, config, rule="R-MODEL-JAC"):
 
 
 def rule_covariance(F, ev_unused, R, config, rule="R-COVARIANCE"):
+    """cov = χ²_red · inv((W·J)ᵀ(W·J)) — decided once per variant of the weights (the constructor, or a helper it hands the
+    weights to, may distinguish the variants itself: `match weights { Unit => borrow J, Diagonal(_) => weights * J.clone() }`):
+    for Diagonal the normal form is exactly (W·J)ᵀ(W·J); for Unit, where W·X is X, it is that form or JᵀJ."""
     from rules_panic import nosite
+    from rules_problem2 import weight_variants
     ev = Eval(F, opaque=[k for k in F.bodies if " as std::ops::Mul<" in k])
     sr0 = stats_roles(F, ev)
     try:
@@ -652,25 +656,34 @@ def rule_covariance(F, ev_unused, R, config, rule="R-COVARIANCE"):
     except AnchorMissing as ex:
         R.bad(rule, config, "-", "anchor-missing", str(ex))
         return
-    cov = f[sr0["cov"]]
     Jn = nosite(J)
     # J is one symbol in the normal form, however it was built (R-MODEL-JAC decides what it is)
     atomJ = ("atomJ",)
+    W = a["weights"]
+    sbi, ssi = None, None
+    for bi_, si_, st_ in b.stmts():
+        if st_ is s:
+            sbi, ssi = bi_, si_
 
-    def sub(t):
+    def sub(t, unit):
         if isinstance(t, tuple):
             if nosite(t) == Jn:
                 return atomJ
-            return tuple(sub(x) if isinstance(x, tuple) else x for x in t)
+            if unit and t and t[0] == "call" and len(t) == 5 and t[1] == "std::ops::Mul::mul" and t[2] == ADT_WEIGHTS and len(t[3]) == 2 and t[3][0] == W:
+                return sub(t[3][1], unit)     # W·X = X for unit weights (R-ROW-SCALING)
+            return tuple(sub(x, unit) if isinstance(x, tuple) else x for x in t)
         return t
-    N = nfmod.NF(is_scalar=is_scalar_term)
-    n = N.nf(sub(cov))
-    ok = False
-    msg = "covariance has normal form %s" % nfmod.show(n, short)[:300]
-    if len(n) == 1:
+
+    def check(fv, unit):
+        cov = fv[sr0["cov"]]
+        N = nfmod.NF(is_scalar=is_scalar_term)
+        n = N.nf(sub(cov, unit))
+        msg = "covariance has normal form %s" % nfmod.show(n, short)[:300]
+        if len(n) != 1:
+            return False, msg, n
         (sc, fac), c = list(n.items())[0]
-        chi = f[sr0["chi2"]]
-        okc = c == 1 and sc == (("atom", sub(chi)),)
+        chi = fv[sr0["chi2"]]
+        okc = c == 1 and sc == (("atom", sub(chi, unit)),)
         inv = fac[0][0] if len(fac) == 1 else None
         oki = False
         if inv and inv[0] == "payload" and inv[1][0] == "call" and inv[1][1].endswith("try_inverse"):
@@ -678,19 +691,36 @@ def rule_covariance(F, ev_unused, R, config, rule="R-COVARIANCE"):
             nx = nfmod.NF().nf(X)
             if len(nx) == 1:
                 (s2, f2), c2 = list(nx.items())[0]
-                if c2 == 1 and not s2 and len(f2) == 4:
+                if c2 == 1 and not s2 and len(f2) == 4 and not unit:
                     (j1, t1), (w1, _), (w2, _), (j2, t2) = f2
-                    Wt = ("W", a["weights"])
+                    Wt = ("W", W)
                     oki = j1 == j2 == atomJ and t1 and not t2 and w1 == Wt and w2 == Wt
+                if c2 == 1 and not s2 and len(f2) == 2 and unit:
+                    (j1, t1), (j2, t2) = f2
+                    oki = j1 == j2 == atomJ and t1 and not t2
             if not oki:
                 msg = "the inverted matrix is `%s`, expected (W·J)ᵀ(W·J)" % nfmod.show(nx, short)[:300]
         elif inv:
             msg = "covariance is not built from an inverse: %s" % short(inv)[:120]
         if okc and oki:
-            ok = True
-        elif not okc:
+            return True, "covariance = %s" % nfmod.show(n, short)[:200], n
+        if not okc:
             msg = "covariance scale is `%s`, expected the reduced χ² (σ²)" % [short(x[1])[:80] for x in sc]
-    R.add(rule, config, b.key, "cov=χ²_red·inv((W·J)ᵀ(W·J))", ok, "covariance = %s" % nfmod.show(n, short)[:200] if ok else msg, s.get("span"))
+        return False, msg, n
+
+    ok, msg = True, ""
+    for var in weight_variants(F):
+        with ev.assuming(W, var):
+            env_v = ev.inline_env(b, {}, 0)
+            agg = ev.rvalue(env_v, s["rv"], (sbi, ssi)) if sbi is not None else None
+        fv = dict(agg[3]) if agg is not None and agg[0] == "agg" else f
+        okv, msgv, _n = check(fv, var == "Unit")
+        if okv:
+            msg = msg or msgv
+        else:
+            ok, msg = False, "for %s weights: %s" % (var, msgv)
+            break
+    R.add(rule, config, b.key, "cov=χ²_red·inv((W·J)ᵀ(W·J))", ok, msg, s.get("span"))
     R.floor(rule, config, 1, "covariance formula")
 
 
